@@ -1,0 +1,58 @@
+//go:build verif
+
+package wasm
+
+// Verification hooks: one event per critical section of the module registry, emitted while the
+// protecting lock is still held. VerifTracer is nil unless a verification harness installs one.
+
+// VerifEvent is what a hook reports.
+type VerifEvent struct {
+	Ev    string          // register | unlist | lookup | storeclose | res | point:<name>
+	Store *Store          // nil for res/point events
+	Mod   *ModuleInstance // the module concerned (nil for storeclose, failed lookups)
+	Name  string          // module name (register, unlist, lookup)
+	Res   string          // register: ok|dup|closed
+	// Owner is the module registered under Name after the step (unlist), nil if none.
+	Owner    *ModuleInstance
+	Notifier bool // res: a close notifier is attached and is about to be fired
+}
+
+// VerifTracer receives every event synchronously; it may block (scheduler gate).
+var VerifTracer func(e VerifEvent)
+
+func verifRegister(s *Store, m *ModuleInstance, res string) {
+	if t := VerifTracer; t != nil {
+		t(VerifEvent{Ev: "register", Store: s, Mod: m, Name: m.ModuleName, Res: res})
+	}
+}
+
+func verifUnlist(s *Store, m *ModuleInstance) {
+	if t := VerifTracer; t != nil {
+		t(VerifEvent{Ev: "unlist", Store: s, Mod: m, Name: m.ModuleName, Owner: s.nameToModule[m.ModuleName]})
+	}
+}
+
+func verifLookup(s *Store, name string, m *ModuleInstance) {
+	if t := VerifTracer; t != nil {
+		t(VerifEvent{Ev: "lookup", Store: s, Mod: m, Name: name})
+	}
+}
+
+func verifStoreClose(s *Store) {
+	if t := VerifTracer; t != nil {
+		t(VerifEvent{Ev: "storeclose", Store: s})
+	}
+}
+
+func verifRes(m *ModuleInstance) {
+	if t := VerifTracer; t != nil {
+		t(VerifEvent{Ev: "res", Mod: m, Name: m.ModuleName, Notifier: m.CloseNotifier != nil})
+	}
+}
+
+// VerifPoint marks a named point between critical sections (outside any lock).
+func VerifPoint(name string, m *ModuleInstance) {
+	if t := VerifTracer; t != nil {
+		t(VerifEvent{Ev: "point:" + name, Mod: m})
+	}
+}
